@@ -64,6 +64,7 @@ pub struct SeamRun {
 }
 
 pub fn run_seam(chunks: &[&[u8]], flags_bits: u8, strict: bool) -> SeamRun {
+    let _busy = crate::drive::busy(None);
     let toks = Rc::new(RefCell::new(Vec::new()));
     let out = Rc::new(RefCell::new(Vec::new()));
     let o2 = out.clone();
